@@ -65,6 +65,8 @@ func run(repo, prop, tier string, seed int, out, known, cg, arg string) (code in
 		return debugRange(p, arg)
 	case "acc":
 		return debugAccesses(p, arg)
+	case "dep":
+		return debugDep(p, arg)
 	case "dump":
 		return debugDump(p, arg)
 	}
